@@ -349,3 +349,34 @@ func TestC16Exhaustive(t *testing.T) {
 	}
 	st.Exhaustive[fmt.Sprintf("index sets: <=2 of [0,%d) and <=3 of [0,%d), x 2 element kinds", span2, span3)] = int64(st.Evaluations)
 }
+
+// TestC12Million: one record set of 2^20+5 records (more than a million), with
+// one offset per key and with blocks of 4: every record must be served.
+func TestC12Million(t *testing.T) {
+	st := newStats("C12")
+	defer st.write()
+	n := 1<<20 + 5
+	keys := make([]string, n)
+	for i := range keys {
+		v := uint32(i) * 3
+		keys[i] = string([]byte{byte(v >> 24), byte(v >> 16), byte(v >> 8), byte(v)})
+	}
+	for _, block := range []int{1, 4} {
+		c := &Case{Prop: "C12", Gen: "million", Keys: hexes(keys), Block: block, Ints: []int64{4096, 17, 4096}, Win: n - 40}
+		sub := newStats("C12")
+		if err := checkC12inner(c, sub); err != nil {
+			if _, ok := err.(*violation); !ok {
+				t.Fatalf("HARNESS ERROR: %v", err)
+			}
+			c.Keys = c.Keys[n-16:] // the recipe identifies the case; keep the tail only
+			path := writeReplay("C12", c)
+			fmt.Printf("VIOLATION property=C12 replay=%s\n", path)
+			fmt.Printf("DETAIL property=C12 record set of %d records, block size %d: %s\n", n, block, oneLine(err.Error()))
+			t.Fatalf("C12 violated: %v", err)
+		}
+		st.calls(int(sub.Calls))
+		st.doneHash(uint64(block), true)
+		st.class("million_records_checked")
+	}
+	st.addSample(map[string]interface{}{"gen": "million", "records": n, "keys": "4-byte big-endian 3*i", "block_sizes": []int{1, 4}})
+}
